@@ -140,6 +140,21 @@ Proof.
   - exists len. unfold seeded_intervals. simpl. apply in_app_iff. left.
     apply iol_first; assumption.
 Qed.
+(** stronger form: EVERY interval length contributes an interval starting at 0
+    (of exactly that length) and an interval ending at n (of at most that length) *)
+Theorem seeded_covers_end_each : forall len step, In (len, step) lens ->
+  In (0, len) (seeded_intervals n minlen lens) /\
+  exists s, In (s, n) (seeded_intervals n minlen lens) /\ n - s <= len.
+Proof.
+  intros len step Hls. destruct (Hlens len step Hls) as [Hlen Hstep].
+  unfold seeded_intervals. split.
+  - apply in_flat_map. exists (len, step). split; [exact Hls|]. simpl.
+    apply iol_first; assumption.
+  - destruct (iol_last n minlen len step Hml Hlen Hstep) as (s & Hs).
+    exists s. split.
+    + apply in_flat_map. exists (len, step). split; [exact Hls | exact Hs].
+    + pose proof (iol_in_range _ _ _ _ _ _ Hml Hlen Hstep Hs). lia.
+Qed.
 End Seeded.
 End Intervals.
 
@@ -515,6 +530,7 @@ Qed.
 Print Assumptions seeded_in_range.
 Print Assumptions seeded_nonempty.
 Print Assumptions seeded_covers_end.
+Print Assumptions seeded_covers_end_each.
 Print Assumptions amoc_spec.
 Print Assumptions amoc_some.
 Print Assumptions amoc_none.
